@@ -42,8 +42,12 @@ type ovOp struct {
 	input func(msg, ad []byte) []byte
 	// call runs the operation. Stream: writes dst[:len(in)] and returns it.
 	call func(dst, in, ad []byte) ([]byte, error)
-	// headOverlapFinding: finding id whose class is "the appended region overlaps only the first
-	// 32 bytes (ephemeral key) of the output/input" (box anonymous functions).
+	// callState, for primitives that keep state between calls (chacha20.Cipher
+	// buffers unused key stream): like call, but on an object that has already
+	// processed pre bytes in an earlier call.
+	callState func(pre int, dst, in []byte) ([]byte, error)
+	// anon: box anonymous functions; the class "the appended region overlaps only the first
+	// 32 bytes (ephemeral key) of the output/input" is finding F22.
 	anon bool
 }
 
@@ -107,10 +111,15 @@ func ovOps() []ovOp {
 		nonce := nonce
 		ops = append(ops, ovOp{name: fmt.Sprintf("chacha20.XORKeyStream/%d", len(nonce)), kind: ovStream, lens: streamLens, inLen: ident, outLen: ident,
 			input: func(msg, _ []byte) []byte { return msg },
-			call: func(dst, in, _ []byte) ([]byte, error) {
+			callState: func(pre int, dst, in []byte) ([]byte, error) {
 				c, err := chacha20.NewUnauthenticatedCipher(ovKey, nonce)
 				if err != nil {
 					return nil, err
+				}
+				if pre > 0 {
+					// an earlier call on the same Cipher; may leave buffered key stream behind
+					first := make([]byte, pre)
+					c.XORKeyStream(first, first)
 				}
 				c.XORKeyStream(dst, in)
 				return dst[:len(in)], nil
@@ -244,6 +253,7 @@ type ovCase struct {
 	dl     int // len(dst) for the append-style operations; extra dst length for stream
 	capCls string
 	slack  int // spare capacity beyond what is needed (append-style)
+	pre    int // stateful primitives: bytes processed by an earlier call on the same object
 	adMode string
 	adLen  int
 	adOff  int // AD start relative to the start of the written region (adMode=="overlap-output") / input
@@ -350,6 +360,10 @@ func fillBuf(buf []byte) {
 // disjoint copies first, runs the call and compares with the model.
 func ovRun(cs *ovCase) (res ovResult, err error) {
 	op := cs.op
+	call := op.call
+	if op.callState != nil {
+		call = func(dst, in, _ []byte) ([]byte, error) { return op.callState(cs.pre, dst, in) }
+	}
 	buf := ovScratch
 	fillBuf(buf)
 	inN, outN := op.inLen(cs.n), op.outLen(cs.n)
@@ -394,7 +408,7 @@ func ovRun(cs *ovCase) (res ovResult, err error) {
 	// contents: message pattern -> input argument (sealed for Open operations)
 	msg := pat(uint64(cs.n)*7+uint64(len(op.name)), cs.n)
 	var input []byte
-	ckey := fmt.Sprintf("%s|%d", op.name, cs.n)
+	ckey := fmt.Sprintf("%s|%d|%d", op.name, cs.n, cs.pre)
 	cached, haveCached := ovCache[ckey]
 	if haveCached && !op.hasAD {
 		input = cached.input
@@ -418,7 +432,7 @@ func ovRun(cs *ovCase) (res ovResult, err error) {
 		if op.kind == ovStream {
 			d = make([]byte, inN)
 		}
-		want, wantErr = op.call(d, clone(input), adCopy)
+		want, wantErr = call(d, clone(input), adCopy)
 	}); e != nil || wantErr != nil {
 		return res, fmt.Errorf("harness: the call on disjoint buffers failed: %v %v", e, wantErr)
 	}
@@ -445,9 +459,9 @@ func ovRun(cs *ovCase) (res ovResult, err error) {
 	}
 	var got []byte
 	var gotErr error
-	perr := catch(func() { got, gotErr = op.call(dst, src, adb) })
+	perr := catch(func() { got, gotErr = call(dst, src, adb) })
 	describe := func() string {
-		return fmt.Sprintf("%s |msg|=%d input=buf[%d:%d] written region=buf[%d:%d] (offset %+d) len(dst)=%d %s ad=%s buf[%d:%d]", op.name, cs.n, in.at, in.end(), w.at, w.end(), cs.off, cs.dl, cs.capCls, cs.adMode, ad.at, ad.end())
+		return fmt.Sprintf("%s (after an earlier %d-byte call on the same object) |msg|=%d input=buf[%d:%d] written region=buf[%d:%d] (offset %+d) len(dst)=%d %s ad=%s buf[%d:%d]", op.name, cs.pre, cs.n, in.at, in.end(), w.at, w.end(), cs.off, cs.dl, cs.capCls, cs.adMode, ad.at, ad.end())
 	}
 	correct := perr == nil && gotErr == nil && len(got) == len(prefixCopy)*b2i(op.kind != ovStream)+outN &&
 		bytes.Equal(got[len(got)-outN:], want) && (op.kind == ovStream || bytes.Equal(got[:len(prefixCopy)], prefixCopy))
@@ -529,7 +543,7 @@ func b2i(b bool) int {
 }
 
 func (cs *ovCase) key(path string, res ovResult) string {
-	return fmt.Sprintf("%s|%s|%d|%d|%d|%s|%s|%d|%d", cs.op.name, path, cs.n, cs.off, cs.dl, cs.capCls, cs.adMode, cs.adLen, cs.adOff)
+	return fmt.Sprintf("%s|%s|%d|%d|%d|%s|%s|%d|%d|%d", cs.op.name, path, cs.n, cs.off, cs.dl, cs.capCls, cs.adMode, cs.adLen, cs.adOff, cs.pre)
 }
 
 func expectName(e expectation) string {
@@ -571,6 +585,16 @@ func TestC53(t *testing.T) {
 		if cs.op.hasAD {
 			c.Class(cs.adMode)
 		}
+		if cs.op.callState != nil {
+			switch {
+			case cs.pre == 0:
+				c.Class("prior-state=fresh")
+			case cs.pre%64 == 0:
+				c.Class("prior-state=block-aligned")
+			default:
+				c.Class("prior-state=buffered-keystream")
+			}
+		}
 		if pn != "-" {
 			c.Class("path=" + pn)
 		}
@@ -590,7 +614,7 @@ func TestC53(t *testing.T) {
 			}
 			report(cs, p, res)
 			if c.WantSample() {
-				c.Sample(map[string]any{"fn": cs.op.name, "msg_len": cs.n, "offset": cs.off, "len_dst": cs.dl, "cap": cs.capCls, "ad": fmt.Sprintf("%s len=%d off=%d", cs.adMode, cs.adLen, cs.adOff), "expect": expectName(res.expect), "why": res.why, "outcome": res.outcome})
+				c.Sample(map[string]any{"fn": cs.op.name, "msg_len": cs.n, "offset": cs.off, "len_dst": cs.dl, "prior_call_bytes": cs.pre, "cap": cs.capCls, "ad": fmt.Sprintf("%s len=%d off=%d", cs.adMode, cs.adLen, cs.adOff), "expect": expectName(res.expect), "why": res.why, "outcome": res.outcome})
 			}
 		}
 	}
@@ -639,6 +663,17 @@ func TestC53(t *testing.T) {
 						variants = append(variants, ovCase{dl: 2, capCls: "cap=insufficient"})
 					}
 				}
+				if op.callState != nil {
+					// the same sweep from generated prior states of the object
+					base := variants
+					variants = nil
+					for _, pre := range []int{0, 1, 37, 63, 64, 100, 191} {
+						for _, v := range base {
+							v.pre = pre
+							variants = append(variants, v)
+						}
+					}
+				}
 				for _, v := range variants {
 					idx++
 					if !ev.Mine(idx) {
@@ -677,6 +712,9 @@ func TestC53(t *testing.T) {
 					continue
 				}
 				cs := ovCase{op: op, n: n, off: off}
+				if op.callState != nil {
+					cs.pre = []int{0, 1, 33, 63, 64, 65, 150}[(n+vi)%7]
+				}
 				if op.kind == ovStream {
 					cs.capCls = "dst=len(src)"
 				} else if vi == 1 {
@@ -751,6 +789,9 @@ func TestC53(t *testing.T) {
 			n %= 300 // public-key operations: keep messages short
 		}
 		cs := ovCase{op: op, n: n}
+		if op.callState != nil {
+			cs.pre = rapid.IntRange(0, 200).Draw(rt, "priorCallBytes")
+		}
 		inN, outN := op.inLen(n), op.outLen(n)
 		switch rapid.IntRange(0, 5).Draw(rt, "offMode") {
 		case 0:
